@@ -507,3 +507,65 @@ func ruleOwnership(c *Ctx, rule, pkgShort, typeName, field string, allowed []str
 		c.Ob(rule, pkgShort+"."+typeName+"."+field, nil, false, "no writer of the field found: anchor missing")
 	}
 }
+
+// ruleFuncBodyFrame: the body of an interpreted function always runs on a frame obtained
+// from newEnv4Func (which selects the calling goroutine's record, links Caller / CallDepth
+// and makes the frame current) — never on a block frame from NewEnv / newEnv.
+func ruleFuncBodyFrame(c *Ctx, short, rule string) {
+	pk := c.P.Pkg(short)
+	info := pk.TypesInfo
+	n := 0
+	for _, fd := range c.P.FuncsOf(short) {
+		if fd.Body == nil {
+			continue
+		}
+		fkey := funcKey(pk, fd)
+		di := buildDefIndex(info, fd)
+		ord := 0
+		inspectCalls(fd.Body, func(call *ast.CallExpr) {
+			id := identOf(call.Fun)
+			if id == nil || len(call.Args) != 1 {
+				return
+			}
+			v, ok := info.Uses[id].(*types.Var)
+			if !ok || !isSigWithEnv(v.Type()) {
+				return
+			}
+			if chainEndsInField(info, di, id, 0) != "funcbody" {
+				return
+			}
+			n++
+			ord++
+			arg := identOf(call.Args[0])
+			okf := false
+			how := "argument is not a variable"
+			if arg != nil {
+				// the innermost definition of the frame variable that precedes the call
+				var def ast.Expr
+				ast.Inspect(fd.Body, func(m ast.Node) bool {
+					if as, ok := m.(*ast.AssignStmt); ok && as.Pos() < call.Pos() && len(as.Lhs) == 1 && len(as.Rhs) == 1 && identOf(as.Lhs[0]) != nil {
+						o := info.Defs[identOf(as.Lhs[0])]
+						if o == nil {
+							o = info.Uses[identOf(as.Lhs[0])]
+						}
+						if o == info.Uses[arg] {
+							def = as.Rhs[0]
+						}
+					}
+					return true
+				})
+				how = "frame variable has no definition"
+				if def != nil {
+					how = "frame comes from " + exprString(def)
+					if dc, ok := unparen(def).(*ast.CallExpr); ok && funcFullName(calleeOf(info, dc)) == short+".newEnv4Func" {
+						okf = true
+					}
+				}
+			}
+			c.Ob(rule, fmt.Sprintf("%s/funcbody%d", fkey, ord), call, okf, "the function body runs on a frame from newEnv4Func ("+how+")")
+		})
+	}
+	if n == 0 {
+		c.Ob(rule, short, nil, false, "no call of a function body found: anchor missing")
+	}
+}
